@@ -121,6 +121,40 @@ _m('C11',
    'types.',
    'DESIGN.md §3 C11')
 
+_m('C07',
+   'package-wide effect lint for nondeterminism sources with dataflow on wall-clock reads; container-kind and iteration-order rules; use-context rule for event ids; definite-assignment analysis of the run loop',
+   'Decides that the package contains none of the known sources of run-to-run variation (hash()/id(), iteration over '
+   'sets, process-global random functions, OS entropy, wall-clock values flowing into state; dict iteration only over '
+   'str-keyed or order-insensitive loops), that listeners are stored in lists and notified in subscription order, that '
+   'event ids are used only ordinally so counter values inherited from earlier work cannot matter, and that _run keeps '
+   'no loop-carried local state so a pause loses nothing. It excludes the known sources of variation over the whole '
+   'package; it does not prove bit-identity across processes as such.',
+   'One allow-listed wall-clock use (explicitly unseeded MersenneTwister) and four order-insensitive dict loops, each '
+   'with a reason in the checker; user models/listeners are outside the analysed program.',
+   'DESIGN.md §3 C07')
+
+_m('C12',
+   'ownership / escape analysis of the generator field; who-may-call rule for random.*; exactly-one-draw path rule on the CFG; wiring shape checks',
+   'Decides that each stream owns a private Random() created in its constructor that never escapes or is re-bound, that '
+   'no module-level random function is used in streams.py/distributions.py (streams cannot influence each other), that '
+   'every next_bool/next_float/next_int consumes exactly one underlying draw on every path (equally seeded streams stay '
+   'aligned under every interleaving of draw kinds), and that set_seed/reset/save_state/restore_state are wired to the '
+   'current seed and the generator state. Value ranges of the draws (stdlib contract, float rounding of '
+   'lo + floor((hi-lo+1)u)) are not decided.',
+   'Trusts random.Random (seed determines sequence; getstate/setstate are complete).',
+   'DESIGN.md §3 C12')
+
+_m('C13',
+   'backward slice of the set_seed argument; dominance rule for table lookups; statelessness lint; finite-domain raise-set evaluation; refuse-before-effect',
+   'Decides that the seed given to a stream for replication r is computed only from the stream name, its original seed '
+   'or configured seed list, r and constants (no hash()/id()/time/random in the slice), that seed-table lookups are '
+   'guarded so unlisted streams reach the fallback updater, that update_seed keeps no state (order independence) and '
+   'the driver calls it once per stream, and that ill-typed, negative or too large replication numbers are refused '
+   'before the stream is touched (raise-set over (r ? 0) x (r ? len)).',
+   'Calls inside the slice that are neither known-deterministic nor known-varying are listed in the evidence, not '
+   'flagged.',
+   'DESIGN.md §3 C13')
+
 
 def finalize():
     for i in range(1, 19):
